@@ -680,13 +680,11 @@ func fntGenSimple(r *Rand, thorough bool) *fntScenario {
 			if len(prev) > 0 && r.P(1, 6) {
 				op.ID = Pick(r, prev).ID // same glyph, other text
 			}
-			if op.Name == ".notdef" && op.ID != 0 {
-				// Encode(gid != 0, ".notdef", …) does not return (finding
-				// simple-glyphname-hang, probed separately by fntProbeNotdefName)
-				op.Name = "notdef"
-			}
 			if len(prev) > 0 && r.P(1, 10) {
 				op.Text = Pick(r, prev).Text // same text, other glyph
+			}
+			if fntNotdefHangs && op.Name == ".notdef" && op.ID != 0 {
+				op.Name = "notdef"
 			}
 		}
 		sc.Ops = append(sc.Ops, op)
@@ -938,7 +936,12 @@ func fntEmitScenario(c *Ctx, sc *fntScenario) {
 	}
 }
 
+// fntNotdefHangs is set when the D27 probe finds that Encode(gid != 0, ".notdef", …) does not
+// return; the generators then avoid that name so that the rest of the run can be evaluated.
+var fntNotdefHangs bool
+
 func runFntAlloc(c *Ctx) {
+	fntProbeNotdefName(c)
 	n := 500
 	if c.Thorough {
 		n = 6000
@@ -964,8 +967,8 @@ func runFntAlloc(c *Ctx) {
 		{K: "G", ID: 5, Text: []byte("fi")}, {K: "E", ID: 5, Text: []byte("fi"), Width: 600},
 		{K: "G", ID: 5, Text: []byte("\ufb01")}, {K: "E", ID: 5, Text: []byte("\ufb01"), Width: 600}}}
 	fntEmitScenario(c, sc)
-	// a CMap that gives no code to CID 0 (the CJK CMaps are of this kind): GetCode(0, ·) answers
-	// "code 0", which is the code of another CID
+	// regression detector for D28 (fixed in 6288f11): a CMap that gives no code to CID 0 (the CJK
+	// CMaps are of this kind); GetCode(0, ·) used to answer "code 0", the code of another CID
 	fntEmitScenario(c, &fntScenario{Kind: "fixed", W0: 500, Key: "fixed-notdef-code",
 		CSR: [][2]string{{"00", "80"}}, Ranges: []fntCRange{{"00", "0a", 2}},
 		Ops: []fntOp{{K: "E", ID: 2, Text: []byte("b"), Width: 600}, {K: "G", ID: 0, Text: []byte("A")}, {K: "C", Text: []byte{0}}}})
@@ -975,20 +978,20 @@ func runFntAlloc(c *Ctx) {
 		{K: "P", ID: 0x10fffc}, {K: "E", ID: 1, Text: []byte("ab"), Width: 500}, {K: "E", ID: 2, Text: []byte("ab"), Width: 500},
 		{K: "E", ID: 3, Text: []byte("ab"), Width: 500}, {K: "E", ID: 4, Text: []byte("ab"), Width: 500},
 		{K: "E", ID: 5, Text: []byte("ab"), Width: 500}, {K: "C", Text: []byte("\U0010fffc\U0010fffe\U0010ffff\ufffd")}}})
-	fntProbeNotdefName(c)
 	c.Sample("identity: GetCode(5,\"fi\") miss, Encode(5,\"fi\"), GetCode(5,\"\\ufb01\") -> same code (class fixed-code-shared-text)")
 }
 
-// fntProbeNotdefName: a glyph other than glyph 0 whose font-supplied name is
-// ".notdef" (fonts with several .notdef glyphs exist).  names.IsValid accepts
-// the name, it is in use for glyph 0, and every ".notdef.altN" is invalid
-// (leading dot), so the naming loop only ends when the name is longer than 31
-// bytes: after 10^20 iterations.  The call is made in a goroutine and given
-// two seconds.
+// fntProbeNotdefName (regression detector for D27, fixed in 2fa3edb): a glyph
+// other than glyph 0 whose font-supplied name is ".notdef" (fonts with several
+// .notdef glyphs exist).  names.IsValid accepts the name, it is in use for
+// glyph 0, and every ".notdef.altN" is invalid (leading dot); before the fix
+// the naming loop only ended when the name was longer than 31 bytes, after
+// 10^20 iterations.  The call is made in a goroutine and given two seconds.
 func fntProbeNotdefName(c *Ctx) {
 	ok, detail := fntReplayNotdefName("")
 	c.Case("probe notdef-name", true)
 	if !ok {
+		fntNotdefHangs = true
 		c.Violate("fnt-simple-hang", "simple-glyphname-hang", detail, "")
 	}
 }
